@@ -520,11 +520,42 @@ fn known_shape(shape: &str) -> Option<&'static str> {
     None
 }
 
+fn map1(k: &str, v: Yaml) -> Yaml {
+    let mut m = serde_yaml::Mapping::new();
+    m.insert(ys(k), v);
+    Yaml::Mapping(m)
+}
+
 pub fn run_c02(ctx: &mut Ctx, known: &Known) {
     let n = budget(ctx, 2500, 60000);
     let mut unsupported = 0usize;
     let mut compared = 0usize;
-    for i in 0..n {
+    // hand-written cases first: quotes inside a quoted pattern (exactly one surrounding pair is
+    // removed), and quantifiers over a field that holds an array (a member matches when SOME element
+    // matches it; members are counted, not occurrences and not elements)
+    let mut fixed: Vec<(Vec<(String, Yaml)>, gen::Cond, Vec<Yaml>)> = vec![];
+    {
+        let sdocs = |vals: &[&str]| -> Vec<Yaml> { vals.iter().map(|v| map1("s", ys(v))).collect() };
+        let qvals = ["'a'", "a", "\"'a'\"", "\"a\"", "''a''", "A", "'A'", "\"\"a\"\"", "x", "'a", "a'"];
+        for pat in ["\"'a'\"", "'\"a\"'", "\"\"a\"\"", "''a''", "i\"'A'\"", "\"a\"", "'a'", "\"'a\"", "\"a'\"", "'''a'''"] {
+            for cond in [gen::Cond::Id("A".into()), gen::Cond::Not(Box::new(gen::Cond::Id("A".into())))] {
+                fixed.push((vec![("A".into(), map1("s", ys(pat)))], cond.clone(), sdocs(&qvals)));
+                fixed.push((vec![("A".into(), map1("s", Yaml::Sequence(vec![ys(pat), ys("zq*")])))], cond.clone(), sdocs(&qvals)));
+            }
+        }
+        let arr = |xs: &[&str]| -> Yaml { map1("s", Yaml::Sequence(xs.iter().map(|x| ys(x)).collect())) };
+        let adocs: Vec<Yaml> = vec![arr(&["admin-a", "admin-b"]), arr(&["admin-root"]), arr(&["x", "admin-root-sudo"]), map1("s", ys("admin-root")), map1("s", ys("admin")),
+            arr(&["x", "y"]), arr(&[]), arr(&["admin"]), arr(&["adminadmin", "admin"]), map1("s", ys("adminadmin"))];
+        for key in ["of(s, 2)", "of(s, 1)", "of(s, 3)", "all(s)", "s", "of(s, 0)"] {
+            for members in [vec!["*admin*", "*root*", "*sudo*"], vec!["admin*", "*root", "*min-r*"], vec!["?admin", "?root", "?sudo"], vec!["i*ADMIN*", "i*ROOT*", "i*sudo*"]] {
+                let body = map1(key, Yaml::Sequence(members.iter().map(|m| ys(m)).collect()));
+                fixed.push((vec![("A".into(), body.clone())], gen::Cond::Id("A".into()), adocs.clone()));
+                fixed.push((vec![("A".into(), body)], gen::Cond::Not(Box::new(gen::Cond::Id("A".into()))), adocs.clone()));
+            }
+        }
+    }
+    let n_fixed = fixed.len();
+    for i in 0..n + n_fixed {
         let mut r = Rng::new(ctx.seed.wrapping_mul(6151).wrapping_add(i as u64));
         // build the case keeping the condition AST
         let n_ids = 1 + r.below(3);
@@ -534,11 +565,17 @@ pub fn run_c02(ctx: &mut Ctx, known: &Known) {
             det.push((name.to_string(), gen::gen_identifier(&mut r)));
         }
         let idn: Vec<String> = det.iter().map(|(k, _)| k.clone()).collect();
-        let cond = gen::gen_cond(&mut r, &idn, 0);
+        let mut cond = gen::gen_cond(&mut r, &idn, 0);
+        let mut docs: Vec<Yaml> = (0..5).map(|_| gen::gen_doc(&mut r)).collect();
+        if i >= n {
+            let (d, c2, ds) = fixed[i - n].clone();
+            det = d;
+            cond = c2;
+            docs = ds;
+        }
         let text = gen::print_cond(&cond, &mut r, 10);
         let ids = det.clone();
         det.push(("condition".into(), ys(&text)));
-        let docs: Vec<Yaml> = (0..5).map(|_| gen::gen_doc(&mut r)).collect();
         let c = CaseReq { optimised: false, det, tps: vec![], tns: vec![], docs: docs.clone(), masks: vec![0] };
         let (ex, parsed) = run_rule_case(ctx, &c, false);
         let p = match parsed {
